@@ -817,6 +817,8 @@ type FnResult struct {
 	Trusted   bool
 	Unrolled  int
 	Trivial   int
+	NRequires int // number of assumptions in force once the preconditions are assumed (vacuity check)
+	HasReq    bool
 }
 
 func (w *World) newCtx(name string, props []string) *Ctx {
@@ -975,6 +977,8 @@ func (w *World) verifyFunctionMode(fc *FuncContract, splitVal *uint64, tag strin
 		c.assume(True, c.evalClause(env, r))
 	}
 	c.flushGlobalInv(st)
+	res.NRequires = len(c.assumes)
+	res.HasReq = len(fc.Requires) > 0
 	entry := st.clone()
 	c.stack = []*ssa.Function{fn}
 	fi := w.fnInfo(fn)
